@@ -1,0 +1,101 @@
+//go:build verif
+
+package socks5
+
+// Machine-checked contracts for /verif (govc). Comment-only, compiled only
+// with -tags verif; changes no behaviour.
+//
+// C21 chain: (1) with authentication enabled+required the authenticator list
+// is non-empty and contains no NoAuthAuthenticator; (2) NewHandler/NewServer
+// keep a non-empty list as given; (3) authenticate succeeds only through one
+// of the listed authenticators returning nil; (4) the user/password
+// authenticator returns nil only if its store accepted exactly the received
+// username and password; (5) the stores accept only a configured user with the
+// matching password; (6) Handle dispatches commands only after (3).
+
+// ---- interface-level contracts (trusted: frame only, no functional content) ----
+
+//@ func Authenticator.GetMethod
+//@ trusted interface method: pure
+
+//@ func Authenticator.Authenticate
+//@ trusted interface method: changes no handler state (functional content is proved on the implementations below)
+
+//@ func CredentialStore.Valid
+//@ trusted interface method: pure (functional content is proved on the two implementations below)
+
+// ---- (5) credential stores ----
+
+//@ func StaticCredentials.Valid
+//@ prop C21
+//@ check bounds
+//@ ensures result ==> has(s, username) && s[username] == password
+
+//@ func HashedCredentials.Valid
+//@ prop C21
+//@ check bounds
+//@ ensures result ==> has(h, username) && bcryptOK(h[username], password)
+
+// ---- (4) user/password sub-negotiation ----
+
+//@ func (*UserPassAuthenticator).Authenticate
+//@ prop C21
+//@ check bounds alloc
+//@ alloc-limit 255
+//@ after call Valid let accepted = $ret
+//@ after call Valid let checkedUser = $1
+//@ ensures err == nil ==> accepted
+//@ ensures err == nil ==> result == checkedUser
+
+//@ func (*NoAuthAuthenticator).Authenticate
+//@ prop C21
+//@ ensures err == nil
+
+// ---- (1) construction ----
+
+//@ func CreateAuthenticators
+//@ prop C21
+//@ check bounds
+//@ ensures cfg.Enabled || !cfg.Required ==> len(result) >= 1
+//@ ensures cfg.Required ==> forall i in 0..len(result): !istype(result[i], *NoAuthAuthenticator)
+//@ ensures cfg.Enabled && cfg.Required ==> len(result) == 1 && istype(result[0], *UserPassAuthenticator)
+
+// ---- (2) handler construction keeps the list ----
+
+//@ func NewHandler
+//@ prop C21
+//@ ensures len(auths) > 0 ==> result.authenticators == auths
+//@ ensures len(result.authenticators) > 0
+
+// ---- (3) method negotiation ----
+
+//@ func (*Handler).authenticate
+//@ prop C21
+//@ check bounds alloc
+//@ alloc-limit 255
+//@ loop 0 invariant -1 <= rangeindex && rangeindex < len(h.authenticators)
+//@ loop 0 invariant selectedAuth == nil || exists i in 0..len(h.authenticators): old(h.authenticators[i]) == selectedAuth
+//@ loop 1 invariant -1 <= rangeindex && rangeindex < len(methods)
+//@ loop 1 invariant selectedAuth == nil || exists i in 0..len(h.authenticators): old(h.authenticators[i]) == selectedAuth
+//@ after call Authenticate let chosen = $0
+//@ after call Authenticate let chosenErr = $ret1
+//@ ensures err == nil ==> exists i in 0..len(h.authenticators): old(h.authenticators[i]) == chosen
+//@ ensures err == nil ==> chosenErr == nil
+
+// ---- (6) dispatch only after authentication ----
+
+//@ func (*Handler).Handle
+//@ prop C21
+//@ after call authenticate let authErr = $ret1
+//@ at call handleConnect assert authErr == nil
+//@ at call handleUDPAssociate assert authErr == nil
+//@ at call handleICMPEcho assert authErr == nil
+
+//@ census[C21] (*Handler).handleConnect in (*Handler).Handle
+//@ census[C21] (*Handler).handleUDPAssociate in (*Handler).Handle
+//@ census[C21] (*Handler).handleICMPEcho in (*Handler).Handle
+
+//@ func NewServer
+//@ prop C21
+//@ ensures len(cfg.Authenticators) > 0 ==> result.handler.authenticators == cfg.Authenticators
+//@ ensures len(result.handler.authenticators) > 0
